@@ -98,6 +98,11 @@ package db
 //@ extern (datastore.Txn).OnSuccess(txn, fn)
 //@   nodefault
 //@
+//@ // every successful save announces its document-level commit: the publication is registered on every path
+//@ // that wrote the commit, whether or not a field changed
+//@ func (*collection).save -> (err)
+//@   ensures err == nil ==> called(OnSuccess, 2)
+//@   tags C20
 //@ func (*collection).save
 //@   assert before call#2 OnSuccess: updateEvent.Cid == res(AddDelta, 2, 0).Cid && updateEvent.Block == res(AddDelta, 2, 1)
 //@   assert before call#4 OnSuccess: updateEvent.Cid == res(AddDelta, 3, 0).Cid && updateEvent.Block == res(AddDelta, 3, 1)
